@@ -242,6 +242,22 @@ pub fn run(ctx: &mut Ctx, real: &mut Real, sw: &Sweep) {
             tiny.cfg.max_random_float = f32::MIN_POSITIVE;
             tiny.cfg.new_erc_name_probability = 0.0;
             bases.push(("narrow-config", tiny));
+            // degenerate intervals (reversed / empty): every generator must refuse or cope, never crash
+            let mut deg = M::default();
+            deg.cfg.min_random_integer = 3;
+            deg.cfg.max_random_integer = -3;
+            deg.cfg.min_random_float = 1.0;
+            deg.cfg.max_random_float = -1.0;
+            deg.cfg.max_points_in_random_expressions = 6;
+            bases.push(("degenerate-config", deg));
+            let mut zero = M::default();
+            zero.cfg.min_random_integer = 0;
+            zero.cfg.max_random_integer = 0;
+            zero.cfg.min_random_float = 0.0;
+            zero.cfg.max_random_float = 0.0;
+            zero.cfg.max_points_in_random_expressions = 6;
+            zero.cfg.new_erc_name_probability = 0.0;
+            bases.push(("zero-width-config", zero));
         }
         for (blabel, base) in &bases {
             if !sw.only_missing {
